@@ -837,7 +837,39 @@ def check_column_layout(ctx, rep):
         rep.ok("T-LAYOUT", "column:space-between-name-and-meta", w.where(meta), "every path from the column name to its meta tags writes a space first")
     else:
         rep.bad("T-LAYOUT", "T-LAYOUT:column:space-between-name-and-meta", w.where(meta), "column meta follows the column name without a separating space: the reader sees one long identifier / rejects the line")
-    return 1
+    return 1 + check_tag_separators(ctx, rep)
+
+
+# separator between the tags of a tag list, by the construct that contains the list (Zinc grammar: meta tags of a grid and of a
+# column are separated by blanks - a comma there would start the next column; dict tags by blanks or commas)
+TAG_SEPARATORS = {"grid::Column": (" ",), "grid::Grid": (" ",), "dict::Dict": (",", " ")}
+
+
+def check_tag_separators(ctx, rep):
+    prog = ctx.prog
+    n = 0
+    for b in prog.bodies.values():
+        if not b.file.endswith("encoding/zinc/encode.rs"):
+            continue
+        k = 0
+        for bi, t in b.calls():
+            nm = strip_generics(mir.callee_name(t) or "")
+            if not nm.endswith("encode::write_dict_tags"):
+                continue
+            adt = (b.rec.get("impl") or {}).get("self_adt") or ""
+            want = next((v for a, v in TAG_SEPARATORS.items() if adt.endswith(a)), None)
+            sep = G.describe(b, t["args"][2]) if len(t["args"]) > 2 else None
+            n += 1
+            key = "tag-separator:%s#%d" % (adt.split("::")[-1] or b.short, k)
+            k += 1
+            if want is None:
+                rep.bad("T-SEP", "T-SEP:tag-separator:unknown-context:%s" % b.short, b.where(bi), "write_dict_tags is called from %s, for which no separator is specified" % b.short)
+            elif sep is not None and sep.kind == "conststr" and sep.v in want:
+                rep.ok("T-SEP", key, b.where(bi), "tags of a %s are separated by %r" % (adt.split("::")[-1], sep.v))
+            else:
+                rep.bad("T-SEP", "T-SEP:tag-separator:%s" % adt.split("::")[-1], b.where(bi), "the tags of a %s are separated by %s, the grammar has %s there (a ',' between column meta tags starts a new column for the reader)" % (adt.split("::")[-1], sep, " or ".join(repr(x) for x in want)))
+    rep.floor("write_dict_tags call sites", n, 3)
+    return n
 
 
 # ---------------------------------------------------------------------- R-WRITEALL
